@@ -515,7 +515,7 @@ func refreshMetadata(c *Ctx, rule string) {
 			keep = append(keep, fk)
 			continue
 		}
-		if o := ownerOf(p.Fn(fk), 0); o != "" && (o == "(*filtering.DNSFilter).finalizeUpdate" || o == "(*filtering.DNSFilter).refreshFiltersArray") {
+		if o := ownerOf(p.Fn(fk), 0); o != "" && (o == "(*filtering.DNSFilter).finalizeUpdate" || o == "(*filtering.DNSFilter).refreshFiltersArray" || strings.HasPrefix(o, "(*filtering.DNSFilter).filterSetProperties$")) {
 			owned[o] = append(owned[o], writers[fk]...)
 			if _, has := writers[o]; !has {
 				writers[o] = nil
@@ -569,6 +569,28 @@ func refreshMetadata(c *Ctx, rule string) {
 						if sl, ok := ia.X.Type().Underlying().(*types.Slice); ok {
 							if bt, ok := sl.Elem().Underlying().(*types.Basic); ok && bt.Kind() == types.Bool {
 								return true, true
+							}
+						}
+					}
+					// or the flag kept beside the list in a record: a boolean field that this function fills
+					// from the first result of update
+					if fa, ok := u.X.(*ssa.FieldAddr); ok {
+						if fr, ok := core.FieldOfAddr(fa); ok {
+							for _, b := range fn.Blocks {
+								for _, in := range b.Instrs {
+									st, isSt := in.(*ssa.Store)
+									if !isSt {
+										continue
+									}
+									if fr2, ok := core.FieldOfAddr(st.Addr); !ok || fr2 != fr {
+										continue
+									}
+									if ex, isEx := st.Val.(*ssa.Extract); isEx && ex.Index == 0 {
+										if call, isCall := ex.Tuple.(*ssa.Call); isCall && core.CalleeKey(call.Common()) == "(*filtering.DNSFilter).update" {
+											return true, true
+										}
+									}
+								}
 							}
 						}
 					}
